@@ -172,14 +172,21 @@ func cmdCheck(args []string) {
 		}
 		sort.Strings(keys)
 		for _, k := range keys {
-			fn := eng.fnByKey[k][0]
 			con := eng.contracts.Funcs[k]
-			if con != nil && con.Trusted != "" {
+			if con != nil && (con.Trusted != "" || con.Inline) {
 				continue
 			}
-			c := eng.verifyFunc(fn, con)
-			ctxs = append(ctxs, c)
-			funcsUnder = append(funcsUnder, k)
+			for _, fn := range eng.fnByKey[k] {
+				if fn.TypeParams().Len() > 0 && len(fn.TypeArgs()) == 0 {
+					continue // generic template; its instances are verified
+				}
+				if fn.Synthetic != "" && !strings.HasPrefix(fn.Synthetic, "instance of") && fn.Synthetic != "package initializer" {
+					continue // wrappers, bound-method thunks
+				}
+				c := eng.verifyFunc(fn, con)
+				ctxs = append(ctxs, c)
+				funcsUnder = append(funcsUnder, c.name)
+			}
 		}
 	}
 	timeout := 5000
